@@ -433,6 +433,26 @@ def install(reg):
             out.append((st_t, v))
         return out
 
+    @ext('dict.remove')
+    def _sremove(ex, st, args, kw, node):
+        """set.remove(x) (sets are dictionaries with None values): KeyError if absent"""
+        d, k = args[0], args[1]
+        out = []
+        ok, e2 = ex.guard(st, ex.dict_has(st, d, k), 'builtins:KeyError')
+        if e2 is not None:
+            out.append((e2, None))
+        if ok is not None:
+            ex.dict_del(ok, d, k)
+            out.append((ok, VNone()))
+        return out
+    reg.externals['set.remove'] = _sremove
+
+    @ext('dict.discard')
+    def _sdiscard(ex, st, args, kw, node):
+        ex.dict_del(st, args[0], args[1])
+        return [(st, VNone())]
+    reg.externals['set.discard'] = _sdiscard
+
     @ext('dict.setdefault')
     def _dsetdefault(ex, st, args, kw, node):
         d, k, default = args
